@@ -15,7 +15,8 @@ can be stored in replay files:
   ('probe', m, which, key)            evaluate maps[m].by_class[key] / by_target[key]: a defaultdict read, which leaves
                                       an empty set behind when the key was absent
   ('iter', m, which, key, subop)      iterate maps[m].by_class[key] / by_target[key] / search(key) and apply
-                                      `subop` (a 'set'/'del'/'rem'/'clear'/'pop' template without m, e) to every
+                                      `subop` (a 'set'/'del'/'rem'/'clear'/'pop'/'uniq' template without m, e, or
+                                      ('spawn_like',) = create_ent with the class and name of the yielded one) to every
                                       entity yielded — implementation only (the model sees the flattened steps).
 """
 from __future__ import annotations
@@ -147,12 +148,20 @@ class World:
         else:
             it = vmf.search(key)
         n = 0
+        self.iter_truncated = False
+        self.iter_yields: list[int] = []
         for ent in it:
             e = self.eid(m, ent)
             n += 1
             if e < 0 or n > 50:
+                self.iter_truncated = True
                 break
-            flat = (sub[0], m, e, *sub[1:])
+            self.iter_yields.append(e)
+            if sub[0] == 'spawn_like':
+                # the loop body creates another entity with the same class and name: a late addition to the set
+                flat = ('create', m, ent['classname'], [('targetname', ent['targetname'])] if ent['targetname'] else [])
+            else:
+                flat = (sub[0], m, e, *sub[1:])
             err = self.apply(flat)
             self.flat.append(flat)
             yield flat, err
